@@ -179,11 +179,12 @@ class Gen:
         if k == "bool":
             return rng.random() < 0.5
         if k == "int":
-            return rng.choice([0, 1, -1, 7, 42, -300, 10**6, 2**70])
+            return rng.choice([0, 0, 1, -1, 7, 42, -300, 10**6, 2**70])
         if k == "float":
-            return rng.choice([0.5, 1.25, -2.75, 3.0, 100.125, 0.1, -0.001, 12345.678])
+            return rng.choice([0.5, 1.25, -2.75, 3.0, 100.125, 0.1, -0.001, 12345.678, 0.0, 1.0])
         if k == "str":
-            return rng.choice(["x", "hello world", "ñ", "a-b", "UPPER", "with \"dq\"", "1", "true"])
+            return rng.choice(["x", "hello world", "ñ", "a-b", "UPPER", "with \"dq\"", "1", "true", "True", "False", "None",
+                               "null", "0", "1.0", "", "[1]"])
         if k == "list":
             if depth > 1:
                 return [1, 2]
